@@ -34,7 +34,18 @@ def lookup(path):
 
 
 class Ctx:
-    __slots__ = ("an", "st", "bi", "t", "path", "args", "dest", "callee", "dest_tix")
+    __slots__ = ("an", "st", "bi", "t", "path", "args", "dest", "callee", "dest_tix", "raws")
+
+    def raw(self, i):
+        """argument value before reduction (keeps signed->unsigned cast provenance)"""
+        v = self.raws[i][0]
+        if v[0] == "pending":
+            v = v[1]
+        if v[0] in ("sum", "diff", "rem"):
+            v = v[1]
+        if v[0] in ("n", "iv", "nw"):
+            return v
+        return self.num(i)
 
     def place_of(self, i):
         """place a reference argument points to, or None"""
@@ -123,7 +134,17 @@ def do_call(an, st, bi, t):
     ctx = Ctx()
     ctx.an, ctx.st, ctx.bi, ctx.t, ctx.path, ctx.callee = an, st, bi, t, path, c
     ctx.dest = t["dest"]
-    ctx.args = [an.eval_op(st, a) for a in t["args"]]
+    ctx.raws = [an.eval_op_raw(st, a) for a in t["args"]]
+    ctx.args = []
+    for (rv, rt) in ctx.raws:
+        v = rv
+        if v[0] == "pending":
+            v = v[1]
+        if v[0] in ("sum", "diff", "rem"):
+            v = v[1]
+        if v[0] == "nw":
+            v = an.reduce_nw(st, v, rt)
+        ctx.args.append((v, rt))
     ctx.dest_tix = an.place_type(t["dest"])
     # explicit panics ------------------------------------------------------------
     if PANIC_FN.search(path) or (target is None and not c.get("resolved_local") and "process::exit" not in path and "process::abort" not in path
@@ -136,8 +157,17 @@ def do_call(an, st, bi, t):
                     break
             if kind != "panic":
                 break
-        ctx.oblige("S5", False, None, "explicit %s! reachable" % kind)
+        lift = None
+        if an.collect:
+            g = an.panic_guard(bi)
+            if g is not None:
+                lift = ("cond", g)
+        ctx.oblige("S5", False, None, "explicit %s! reachable" % kind, lift)
         return []
+    if an.interproc is not None:
+        for i, (v, tix) in enumerate(ctx.args):
+            if tix is not None and an.T[tix]["k"] == "closure":
+                an.interproc.check_closure_call(an, ctx, i)
     local = c.get("resolved_local") if c.get("resolved") else c.get("local")
     val = None
     handled = False
@@ -284,20 +314,27 @@ def m_index(c):
     ln = c.len_of(0)
     pl = c.place_of(0)
     mut = "index_mut" in c.path
-    if mut and pl is not None:
-        st.kill(pl, keep_len=True)
     ity = c.an.T[c.args[1][1]]
     if ity["k"] == "int":
         ix = c.num(1)
-        ok = st.prove_le(ix, ln, -1)
-        lift = ("le", ix, ln, -1) if (not ok and ix[0] == "n" and ln[0] == "n") else None
+        stable = pl is not None and ix[0] == "n" and isinstance(pl[0], int)
+        if mut and pl is not None and not stable:
+            # the element cannot be named: whatever is written through the returned reference is forgotten now
+            st.kill(pl, keep_len=True)
+        ixm, cons = c.an.index_constraints(st, c.raw(1), ln, -1)
+        ok, un = c.an.conj_check(st, cons)
         rule = None
         if ok:
-            rule = "D1" if ln[0] == "n" and ln[1] is None else "D3" if ix[0] == "n" and ix[1] is not None else "D2"
-        c.oblige("S2", ok, rule, "index %s may be >= length %s" % (c.an.vs(ix), c.an.vs(ln)), lift,
-                 trust=trust_layers(c, pl))
-        st.add_le(ix, ln, -1)
+            rule = "D1" if ln[0] == "n" and ln[1] is None else "D3" if ixm[0] == "n" and ixm[1] is not None else "D2"
+        c.oblige("S2", ok, rule, "index %s may be >= length %s%s" % (c.an.vs(ixm), c.an.vs(ln), " or negative" if len(cons) > 1 else ""),
+                 None if ok else c.an.conj_lift(un))
+        c.an.conj_assume(st, cons)
+        ix = ixm if (len(cons) > 1) else ix
+        if pl is not None and ix[0] == "n" and isinstance(pl[0], int):
+            return ("ref", pl[0], pl[1] + (("ix", ix),))
         return ("ref", None, None)
+    if mut and pl is not None:
+        st.kill(pl, keep_len=True)
     rb = range_bounds(c, 1)
     if rb is None:
         c.oblige("S2", False, None, "slice index of unrecognised kind %s" % ity["s"])
@@ -305,15 +342,11 @@ def m_index(c):
     start, end, incl = rb
     if end is None:
         end = ln
-    ok1 = st.prove_le(start, end, 0)
-    ok2 = st.prove_le(end, ln, 0)
-    lift = None
-    if not (ok1 and ok2) and all(x[0] == "n" for x in (start, end, ln)):
-        lift = ("range", start, end, ln)
-    c.oblige("S2", ok1 and ok2, "D4" if ok1 and ok2 else None,
-             "range %s..%s may exceed length %s%s" % (c.an.vs(start), c.an.vs(end), c.an.vs(ln), "" if ok1 else " or start > end"), lift)
-    st.add_le(start, end, 0)
-    st.add_le(end, ln, 0)
+    cons = [(start, end, 0), (end, ln, 0)]
+    ok, un = c.an.conj_check(st, cons)
+    c.oblige("S2", ok, "D4" if ok else None,
+             "range %s..%s may exceed length %s or start > end" % (c.an.vs(start), c.an.vs(end), c.an.vs(ln)), None if ok else c.an.conj_lift(un))
+    c.an.conj_assume(st, cons)
     # the result is a new slice place rooted at the destination
     d = c.dest_place()
     if d is not None:
@@ -421,9 +454,10 @@ def m_content_only(c):
 def m_swap(c):
     ln = c.len_of(0)
     a, b = c.num(1), c.num(2)
-    ok = c.st.prove_le(a, ln, -1) and c.st.prove_le(b, ln, -1)
-    lift = ("le2", a, b, ln) if (not ok and a[0] == "n" and b[0] == "n" and ln[0] == "n") else None
-    c.oblige("S3", ok, "D4" if ok else None, "swap(%s, %s) on length %s" % (c.an.vs(a), c.an.vs(b), c.an.vs(ln)), lift)
+    _, ca = c.an.index_constraints(c.st, c.raw(1), ln, -1)
+    _, cb = c.an.index_constraints(c.st, c.raw(2), ln, -1)
+    ok, un = c.an.conj_check(c.st, ca + cb)
+    c.oblige("S3", ok, "D4" if ok else None, "swap(%s, %s) on length %s" % (c.an.vs(a), c.an.vs(b), c.an.vs(ln)), None if ok else c.an.conj_lift(un))
     pl = c.place_of(0)
     if pl is not None:
         c.st.kill(pl, keep_len=True)
@@ -554,10 +588,11 @@ def m_resize(c):
 def m_insert(c):
     ln = c.len_of(0)
     ix = c.num(1)
-    ok = c.st.prove_le(ix, ln, 0)
-    lift = ("le", ix, ln, 0) if (not ok and ix[0] == "n" and ln[0] == "n") else None
-    c.oblige("S3", ok, "D4" if ok else None, "insert at %s may exceed length %s" % (c.an.vs(ix), c.an.vs(ln)), lift)
-    c.st.add_le(ix, ln, 0)
+    ixm, cons = c.an.index_constraints(c.st, c.raw(1), ln, 0)
+    ok, un = c.an.conj_check(c.st, cons)
+    c.oblige("S3", ok, "D4" if ok else None, "insert at %s may exceed length %s%s" % (c.an.vs(ixm), c.an.vs(ln), " or be negative" if len(cons) > 1 else ""),
+             None if ok else c.an.conj_lift(un))
+    c.an.conj_assume(c.st, cons)
     t, pl = _len_term(c)
     if t is not None:
         c.st.kill(pl, keep_len=True)
@@ -579,10 +614,11 @@ def m_string_insert(c):
 def m_remove(c):
     ln = c.len_of(0)
     ix = c.num(1)
-    ok = c.st.prove_le(ix, ln, -1)
-    lift = ("le", ix, ln, -1) if (not ok and ix[0] == "n" and ln[0] == "n") else None
-    c.oblige("S3", ok, "D4" if ok else None, "remove at %s may be >= length %s" % (c.an.vs(ix), c.an.vs(ln)), lift)
-    c.st.add_le(ix, ln, -1)
+    ixm, cons = c.an.index_constraints(c.st, c.raw(1), ln, -1)
+    ok, un = c.an.conj_check(c.st, cons)
+    c.oblige("S3", ok, "D4" if ok else None, "remove at %s may be >= length %s%s" % (c.an.vs(ixm), c.an.vs(ln), " or negative" if len(cons) > 1 else ""),
+             None if ok else c.an.conj_lift(un))
+    c.an.conj_assume(c.st, cons)
     t, pl = _len_term(c)
     if t is not None:
         c.st.kill(pl, keep_len=True)
@@ -836,9 +872,8 @@ def m_clamp(c):
         c.oblige("S7", False, None, "float clamp(min, max) panics when min > max or either is NaN")
         return None
     x, lo, hi = c.num(0), c.num(1), c.num(2)
-    ok = st.prove_le(lo, hi, 0)
-    lift = ("le", lo, hi, 0) if (not ok and lo[0] == "n" and hi[0] == "n") else None
-    c.oblige("S7", ok, "D7" if ok else None, "clamp(min=%s, max=%s) panics when min > max" % (c.an.vs(lo), c.an.vs(hi)), lift)
+    ok, un = c.an.conj_check(st, [(lo, hi, 0)])
+    c.oblige("S7", ok, "D7" if ok else None, "clamp(min=%s, max=%s) panics when min > max" % (c.an.vs(lo), c.an.vs(hi)), None if ok else c.an.conj_lift(un))
     st.add_le(lo, hi, 0)
     if st.bottom:
         return None
